@@ -1243,6 +1243,23 @@ def rule_pa_cleanorder(cx, rep, port):
     p = cx.port(port)
     mod = cx.engine_mod(port)
     cq = p.func(mod, 'cleanup_query')
+    # the parser works on the cleaned text only: once cleanup_query() has produced it, the raw text (comment lines and all) is not
+    # handed to anything else - in particular not to get_variables_map(), which would bind variables mentioned in comments
+    sp_ = p.func(mod, 'shallow_parse_input_query')
+    cleans = [n for n in walk_no_nested(sp_) if isinstance(n, ast.Assign) and isinstance(n.value, ast.Call) and call_name(n.value) == 'cleanup_query' and len(n.value.args) == 1 and isinstance(n.value.args[0], ast.Name) and isinstance(n.targets[0], ast.Name)]
+    if len(cleans) == 1 and cleans[0].targets[0].id != cleans[0].value.args[0].id:
+        raw_ = cleans[0].value.args[0].id
+        later = [x for x in walk_no_nested(sp_) if isinstance(x, ast.Name) and x.id == raw_ and isinstance(x.ctx, ast.Load) and x.pos > cleans[0].pos and not any(x is y for y in ast.walk(cleans[0]))]
+        rebound = [n for n in walk_no_nested(sp_) if isinstance(n, ast.Assign) and any(is_name(t, raw_) for t in n.targets) and n.pos > cleans[0].pos]
+        if later and not rebound:
+            user = later[0]
+            while getattr(user, 'parent', None) is not None and not isinstance(user, ast.Call):
+                user = user.parent
+            rep.violated('cleaned text used', later[0], 'after cleanup_query() stored the cleaned text in `{}`, the raw `{}` (comment lines included) is still handed on: `{}`'.format(cleans[0].targets[0].id, raw_, node_text(user, 80)))
+        else:
+            rep.holds('cleaned text used', cleans[0], 'only the cleaned text is used after cleanup_query()')
+    elif len(cleans) == 1:
+        rep.holds('cleaned text used', cleans[0], 'the cleaned text replaces the raw one')
     strips = []
     for c in walk_no_nested(cq):
         if isinstance(c, ast.Call) and isinstance(c.func, ast.Attribute):
